@@ -494,3 +494,116 @@ def isolation(I, prop, s1, s2, cap, policy, max_paths, keep=True):  # noqa: F811
         if v.role in seen:
             v.confirmed, v.replay = seen[v.role]
     return res
+
+
+# --------------------------------------------------------------------------------------------------- C13: bulk refill of the cache (Cache::restore / Store::load)
+WHO = scen.wf("m", [scen.step("s1", [scen.irq("a1", params={"v": "{{ who }}"})]), scen.step("s2", [scen.irq("a2")])], inputs={"who": 0}, outputs={"who": None})
+AUTO = scen.wf("mC", [scen.step("s1", [scen.msg("m1")])])
+
+
+def _start_model(d, W, model, opts, tag):
+    h = W.start(model, opts)
+    if isinstance(h, Enum):
+        raise Unsupported("start failed: %r" % (h,))
+    return Proc(W, h, model, tag)
+
+
+def restore_path(I, res, prop, policy):
+    """Two processes of the SAME model started with different inputs are both out of the cache (evicted under load) when a third process finishes:
+    the real Cache::restore refills the cache with both rows in one batch.  Each must go on exactly as it does alone."""
+    d = Driver(I, res, prop, "restore-batch:" + policy)
+    refs = []
+    for who, tag in ((1, "A"), (2, "B")):
+        W0 = d.world()
+        p0 = _start_model(d, W0, WHO, {"who": who}, tag)
+        W0.drain()
+        n = 0
+        while n < 6:
+            irqs = d.open_irqs(p0)
+            if not irqs or p0.done():
+                break
+            n += 1
+            d.answer(W0, p0, irqs[0])
+        refs.append(summary(W0, p0))
+    d.phase = "together"
+    W = d.world(policy=policy, cache_cap=4)
+    pa = _start_model(d, W, WHO, {"who": 1, "pid": "pA"}, "A")
+    pb = _start_model(d, W, WHO, {"who": 2, "pid": "pB"}, "B")
+    W.drain()
+    d.evict(W, pa)
+    d.evict(W, pb)
+    pc = _start_model(d, W, AUTO, {"pid": "pC"}, "C")
+    d.log.append(("start-auto", "C", None, None, d.phase))
+    W.drain()
+    if not pc.done():
+        raise Unsupported("the auto process did not finish")
+    res.witnesses += 1
+    procs = [pa, pb]
+    n = 0
+    while n < 12:
+        cands = [(p, t) for p in procs for t in d.open_irqs(p)[:1] if not p.done()]
+        if not cands:
+            break
+        n += 1
+        p, t = cands[I.path.choose(len(cands), "who")] if len(cands) > 1 else cands[0]
+        r = d.answer(W, p, t)
+        if r is None or r.d != 0:
+            d.viol("restore-batch:action-rejected", "completing %s of process %s was rejected after the cache was refilled" % (t["nid"], p.name))
+            return
+    for p, ref in ((pa, refs[0]), (pb, refs[1])):
+        d.compare(ref, summary(W, p), "restore-batch", "same-model")
+    if len(res.samples) < 2:
+        res.samples.append(dict(check="restore-batch", log=d.log[:10]))
+
+
+def confirm_restore(v):
+    from . import replay
+    log = [e for e in v.decisions["log"] if e[4] == "together"]
+    idx = {"A": 0, "B": 1}
+    known = node_ids(WHO)
+
+    def solo(who, which):
+        steps = [{"op": "start", "mid": "m", "inputs": {"who": who}}]
+        for e in log:
+            if e[0] == "answer" and e[1] == which:
+                steps.append({"op": "action", "kind": "next", "nid": e[2], "occurrence": 0, "options": {}})
+        steps.append({"op": "answer_all", "max": 6, "options": {}})
+        return {"config": {"keep_processes": True}, "threads": 0, "models": [WHO], "steps": steps, "known_nids": sorted(known)}
+
+    steps = [{"op": "start", "mid": "m", "inputs": {"who": 1, "pid": "pA"}}, {"op": "start", "mid": "m", "inputs": {"who": 2, "pid": "pB"}},
+             {"op": "uncache", "pid_index": 0}, {"op": "uncache", "pid_index": 1}, {"op": "start", "mid": "mC", "inputs": {"pid": "pC"}}]
+    for e in log:
+        if e[0] == "answer":
+            steps.append({"op": "action", "kind": "next", "nid": e[2], "occurrence": 0, "options": {}, "pid_index": idx[e[1]]})
+    steps.append({"op": "answer_all", "max": 6, "options": {}, "pid_index": 0})
+    steps.append({"op": "answer_all", "max": 6, "options": {}, "pid_index": 1})
+    both = replay.run({"config": {"keep_processes": True, "cache_cap": 4}, "threads": 0, "models": [WHO, AUTO], "steps": steps, "known_nids": sorted(known | node_ids(AUTO))})
+    ra, rb = replay.run(solo(1, "A")), replay.run(solo(2, "B"))
+    if any("error" in x for x in (both, ra, rb)):
+        return None, dict(err=[x.get("error") for x in (both, ra, rb)])
+    ob = replay.normalise(both)
+    differ = []
+    info = {}
+    for i, so in enumerate((ra, rb)):
+        s_solo = _real_summary(replay.normalise(so), known, 0)
+        s_both = _real_summary(ob, known, i)
+        for k in ("tasks", "messages", "events"):
+            if s_solo is None or s_both is None or s_solo[k] != s_both[k]:
+                differ.append(k)
+        info["proc%d" % i] = dict(solo=s_solo and s_solo["messages"][:4], together=s_both and s_both["messages"][:4])
+    if v.role.startswith("restore-batch:action-rejected"):
+        rej = [r for r in both["results"] if r.get("op") == "action" and not r.get("ok")]
+        return bool(rej), dict(rejected=rej[:2])
+    comp = v.role.split(":")[1].split("-")[0] if ":" in v.role else ""
+    return (comp in differ), dict(differ=differ, **info)
+
+
+def restore_batch(I, prop, policy, max_paths):
+    res = explore(I, "restore-batch:" + policy, lambda I, res: restore_path(I, res, prop, policy), max_paths=max_paths)
+    seen = {}
+    for v in res.violations:
+        if v.role not in seen and len(seen) < 4:
+            seen[v.role] = confirm_restore(v)
+        if v.role in seen:
+            v.confirmed, v.replay = seen[v.role]
+    return res
